@@ -58,6 +58,8 @@ type lockRule struct {
 	// fields whose loads may be correlated between branches (immutable after
 	// publication per C03.R2): `if h.sequential { lock } … if h.sequential { unlock }`
 	predFields []string
+	// panicAt: callbacks that may panic (nil: none)
+	panicAt func(c *ssa.CallCommon) bool
 }
 
 func (r *lockRule) Inline(fn *ssa.Function) bool { return r.scope == nil || r.scope(fn) }
@@ -331,6 +333,17 @@ func (r *lockRule) OnInstr(e *Engine, st *State, fc *FrameCtx, in ssa.Instructio
 		isCB = true
 		callee = dynCalleeName(e, fc, c.Value)
 	}
+	if isCB && r.panicAt != nil && r.panicAt(c) {
+		// the user's handler may panic: the unwinding alternative is explored too
+		r.res.CallbacksSeen++
+		if st.Sigma != "" {
+			key := FuncDisplay(in.Parent()) + "/calls/" + callee + "/holding/" + heldClasses(st.Sigma)
+			if _, seen := r.res.Callbacks[key]; !seen {
+				r.res.Callbacks[key] = &lockCallback{Key: key, Pos: r.p.Pos(in.Pos()), Callee: callee, Held: heldClasses(st.Sigma), Witness: traceOf(e, st)}
+			}
+		}
+		return true
+	}
 	if isCB {
 		r.res.CallbacksSeen++
 		if st.Sigma != "" {
@@ -401,6 +414,9 @@ func (r *lockRule) misc(e *Engine, st *State, pos token.Pos, construct, format s
 }
 
 func (r *lockRule) OnExit(e *Engine, st *State, kind ExitKind) {
+	if st.Sigma != "" && (kind == ExitPanic || kind == ExitGoroutinePanic) {
+		r.misc(e, st, token.NoPos, r.root+"/lock-leaked-on-panic/"+heldClasses(st.Sigma), "a panic in the user's handler leaves %s with lock(s) still held: %s — the panic is recovered further up, but every later acquisition of that lock blocks forever", r.root, heldClasses(st.Sigma))
+	}
 	if st.Sigma != "" && (kind == ExitReturn || kind == ExitGoroutine) {
 		r.misc(e, st, token.NoPos, r.root+"/exit-with-lock/"+heldClasses(st.Sigma), "%s is left with lock(s) still held: %s", r.root, heldClasses(st.Sigma))
 	}
@@ -418,8 +434,12 @@ func runLocksOpt(p *Prog, guards []guardSpec, pkgs map[string]bool, resolve bool
 }
 
 func runLocksFull(p *Prog, guards []guardSpec, pkgs map[string]bool, resolve bool, immutable []string) *lockResult {
+	return runLocksPanic(p, guards, pkgs, immutable, nil)
+}
+
+func runLocksPanic(p *Prog, guards []guardSpec, pkgs map[string]bool, immutable []string, panicAt func(c *ssa.CallCommon) bool) *lockResult {
 	res := &lockResult{Accesses: map[string]*lockAccess{}, Callbacks: map[string]*lockCallback{}, Edges: map[string]string{}}
-	lr := &lockRule{p: p, guards: map[string]string{}, res: res}
+	lr := &lockRule{p: p, guards: map[string]string{}, res: res, panicAt: panicAt}
 	for _, g := range guards {
 		lr.guards[g.Type+"."+g.Field] = g.Mu
 	}
